@@ -60,6 +60,11 @@ pub fn run_case(case: &mut Case) {
         }
         spec
     };
+    let mut spec = spec;
+    if rng.chance(1, 3) {
+        // multi-paragraph help texts with indented and fenced code blocks
+        crate::emit::decorate(&mut spec.root, &mut rng);
+    }
     let h = spec.hash64();
     case.rep.definition(h);
     let parser = build_options(&spec);
@@ -79,9 +84,21 @@ pub fn run_case(case: &mut Case) {
     }
 
     // invariant check is part of the quantifier: definitions that fail it are discarded
-    let (inv, _) = guarded(0, || parser.check_invariants(false));
-    if inv.is_err() {
-        case.rep.count("discarded_by_check_invariants");
+    let (inv, _) = guarded(RENDER_FUEL, || parser.check_invariants(false));
+    if let Err(o) = inv {
+        if matches!(o, Outcome::FuelExhausted) {
+            case.rep.violation(
+                "fuel:check_invariants",
+                "total",
+                case.index,
+                J::obj()
+                    .set("definition", def_json(&spec))
+                    .set("mode", "check_invariants")
+                    .set("observed", o.show()),
+            );
+        } else {
+            case.rep.count("discarded_by_check_invariants");
+        }
         return;
     }
 
